@@ -47,6 +47,11 @@ def cases(tier, seed):
                 yield {'L': L, 'shape': shape, 'scheme': scheme,
                        'n_cells': n_cells, 'seed': seed,
                        'd': b['deviation_bound']}
+        if n >= 2 and L <= 2:
+            # successive runs in one interpreter with inputs rewritten in
+            # place (state carried between calls)
+            yield {'L': L, 'shape': shape, 'scheme': 'B', 'n_cells': 5,
+                   'seed': seed, 'd': 0, 'rewrite': True}
         # >= 11 cells in chunks of 1: per-chunk buffer names whose
         # lexicographic order differs from the row order
         yield {'L': L, 'shape': shape, 'scheme': 'B', 'n_cells': 12,
@@ -93,6 +98,15 @@ def config_space(L, n_cells, d):
 
 def evaluate(case, scratch, want=('C01',), prop='C01', space_fn=None):
     L = case['L']
+    if case.get('rewrite'):
+        spec = {'L': L, 'shape': case['shape'], 'scheme': case['scheme'],
+                'n_cells': 5, 'seed': case['seed'], 'marker_mode': 'full'}
+        n, found = mapcheck.run_rewrite_history(spec, scratch, want)
+        v = [{'key': f['key'], 'msg': f"{f['key']}: {f['msg']}\n{label}"}
+             for label, f in found if f['prop'] == prop]
+        return {'violations': v[:20], 'evaluations': n,
+                'keys': [f'rewrite|{case["shape"]}|{i}' for i in range(n)],
+                'outcomes': ['rewrite-history']}
     violations = []
     keys = []
     outcomes = set()
